@@ -657,6 +657,9 @@ func genC19(r *RNG, tier string) []Case {
 		if r.Chance(1, 4) {
 			probe.d = uint32(r.U64())
 		}
+		if r.Chance(1, 3) { // another server of the same domain: containment looks at sequence numbers only
+			probe.sv = []uint32{probe.sv + 1, 0, 1<<32 - 1, uint32(r.U64())}[r.Intn(4)]
+		}
 		simple(fmt.Sprintf("mar op=contains_gtid set=%s d=%d sv=%d q=%d", mariaAbs(ml), probe.d, probe.sv, probe.q), "maria-contains-gtid", func() string {
 			return b01(mariaImpl(ml).ContainsGTID(replication.MariadbGTID{Domain: probe.d, Server: probe.sv, Sequence: probe.q}))
 		}, func(im string) (bool, string) {
